@@ -2,6 +2,6 @@ From Coq Require Import ExtrOcamlBasic.
 From MV Require Import Gen.ConstsCache Cache.CacheModel.
 Extraction Language OCaml.
 Cd "../ocaml/gen".
-Extraction "m_c14.ml" init_state conn0 step tick key_add key_del ticket_create ticket_ext tls13_validate tls13_issue
+Extraction "m_c14.ml" init_state conn0 step tick key_add key_del ticket_create ticket_ext ticket_ext_cb tls13_validate tls13_issue
   k_versions k_suites_rsa_tls12 zeros IDLEN MSLEN.
 Cd "../../coq".
